@@ -75,14 +75,14 @@ class Bag(object):
                     continue
                 if process_related_objects:
                     for related_obj in value:
-                        if related_obj not in bag.dicts:
+                        if related_obj not in bag.objects.get(related_obj.__class__, ()):
                             bag._process_object(related_obj, process_related=False)
                 if attr.reverse.entity._pk_is_composite_:
                     value = sorted(bag._reduce_composite_pk(item._get_raw_pkval_()) for item in value)
                 else: value = sorted(item._get_raw_pkval_()[0] for item in value)
             elif attr.is_relation:
                 if value is not None:
-                    if process_related_objects:
+                    if process_related_objects and value not in bag.objects.get(value.__class__, ()):
                         bag._process_object(value, process_related=False)
                     value = value._get_raw_pkval_()
                     if len(value) == 1: value = value[0]
